@@ -9,7 +9,7 @@ from runner import Judge
 
 CH = {'a': 'a', ' ': ' ', '{': '{', '}': '}', '0': '0', 'x': 'x', '%': '%', 'e': 'é', 'b': '\\', '\n': '\n',
       '(': '(', ')': ')'}
-SEG = {'n': 'n', 'm': 'm', 'u': 'üñ', '.': '.', '..': '..', '': '', 'x': 'x', 'k': 'k', 'c': 'c', 's': 's'}
+SEG = {'n': 'n', 'm': 'm', 'u': 'üñ', 'o+': 'out_old', '.': '.', '..': '..', '': '', 'x': 'x', 'k': 'k', 'c': 'c', 's': 's'}
 
 
 def text(chars):
@@ -48,7 +48,7 @@ class EmitJudge(Judge):
         try:
             root = os.path.join(P, 'T', 'out')
             os.makedirs(root)
-            os.makedirs(os.path.join(P, 'T', 'other'))
+            os.makedirs(os.path.join(P, 'T', 'out_old'))
             src = os.path.join(P, 'src.bin')
             with open(src, 'wb') as f:
                 f.write(b'payload')
@@ -63,7 +63,7 @@ class EmitJudge(Judge):
         rel = '/'.join(segs) + ('/' if p['slash'] else '')
         if p['abs'] == 'rel':
             return rel
-        base = {'root': P, 'inroot': root, 'sibling': os.path.join(P, 'T', 'other')}[p['abs']]
+        base = {'root': P, 'inroot': root, 'sibling': os.path.join(P, 'T', 'out_old')}[p['abs']]
         return base + '/' + rel
 
     def on_vec(self, tag, obj):
